@@ -118,16 +118,20 @@ MULTI['C11'] = dict(
         'L11a (Verus, unit EVAL): class7(relabel(cards, p)) == class7(cards) for every suit permutation p, and class7 is invariant under swapping two positions; with C01\'s contract the real evaluator is suit- and order-blind',
         'L11a\' (Verus, unit EVAL, lemma_deal_relabel): one relabelled deal has the same strength for every player although the seven cards may reach the evaluator in another order -- CardPair::new re-canonicalises the two hole cards and the deck order of turn and river within a rank changes, so positions (0,1) and/or (5,6) are exchanged; this is the hypothesis strengths_follow of L11b for pi = identity',
         'L11b (Verus, unit SHOWDOWN): winner flags are determined by the strengths alone and follow the players under any reordering (lemma_flags_follow over C03\'s postcondition); lemma_some_winner + winner_len == number of flags: the k winners\' shares of 1/k are k in number',
-        'L11d / counting step NOT mechanised: that suit relabelling and player reordering carry the set of legal deals bijectively (the deck order changes within a rank, so positions are permuted), hence equal tallies from the flag equalities, is a paper argument over C02\'s stepper contract',
+        'L11c\' (Verus, unit SHOWDOWN, lemma_hit_follows): inside one showdown, under strengths_follow, player i of the second showdown is one of exactly k winners iff player pi(i) of the first is (lemma_flags_follow + lemma_count_perm: the number of flags is invariant under re-indexing the players; lemma_count_is_win_count ties it to win_count / winner_len)',
+        'L11e (Verus, unit SHOWDOWN, lemma_tally_rearranged): the counting step -- for two runs of equal length and an INJECTIVE map phi from the showdowns of the first to those of the second along which "player p1 / p2 is one of exactly k winners" agrees, the tallies agree (tally = number of showdowns of the run in which the player is one of exactly k winners); induction removing phi(n-1) from the second run (lemma_tally_remove)',
+        'L11d NOT mechanised (the one remaining paper step): that such a phi exists for the two real runs -- suit relabelling and player reordering carry the set of legal deals of C02\'s characterisation one-to-one onto the legal deals of the relabelled / reordered evaluator (the deck order changes within a rank and the range listings are permuted, so positions are permuted), and both runs list every legal deal exactly once (C02), hence have equal length',
         'the tallies themselves are computed by the caller (README / examples), not by the crate; 1/k shares are floating-point in the examples and their sum is not modelled',
     ] + ITER_ASSUME[:3],
     samples=[
         {'obligation': 'lemma_class7_relabel', 'clause': 'is_perm(p, q) && cards.len() == 7 ==> class7(relabel(cards, p)) == class7(cards)'},
         {'obligation': 'lemma_class7_swap', 'clause': 'class7(cards.update(i, cards[j]).update(j, cards[i])) == class7(cards)'},
         {'obligation': 'lemma_deal_relabel', 'clause': 'is_perm(p, q) ==> class7(relabelled seven cards, hole cards and/or turn,river exchanged) == class7(h0, h1, f0, f1, f2, t, r)'},
+        {'obligation': 'lemma_tally_rearranged', 'clause': 'o1.len() == o2.len() && phi injective into o2 && forall i. hit(o2[phi(i)], p2, k) == hit(o1[i], p1, k) ==> tally(o2, p2, k) == tally(o1, p1, k)'},
+        {'obligation': 'lemma_hit_follows', 'clause': 'is_showdown_of(sd1, ..) && is_showdown_of(sd2, ..) && strengths_follow(.., pi, inv) ==> hit(flags_of(sd2), i, k) == hit(flags_of(sd1), pi(i), k)'},
         {'obligation': 'lemma_flags_follow', 'clause': 'is_showdown_of(sd1, ..) && is_showdown_of(sd2, ..) && strengths_follow(.., pi, inv) ==> forall i. sd2.players[i].win == sd1.players[pi(i)].win'},
     ],
-    not_decided=['equality of whole tallies (the bijection between the two enumerations) is argued on paper, see assumptions'],
+    not_decided=['existence of the one-to-one correspondence between the two enumerations (L11d) is argued on paper; given it, equality of the tallies is mechanised (L11e)'],
     search=[['c11-search', '{seed}', '{n}']], search_n={'quick': 400, 'thorough': 4000})
 
 
